@@ -44,6 +44,17 @@ class CntStep(Step):
         return {'c': {self.parameters['sname']: 1}}
 
 
+class LegacyCnt(Process):
+    """The same counter written the old way: a plain Process that says it is a
+    deriver (is_deriver is deprecated but supported; is_step follows it)."""
+    defaults = dict(CntStep.defaults)
+    ports_schema = CntStep.ports_schema
+    next_update = CntStep.next_update
+
+    def is_deriver(self):
+        return True
+
+
 TPL_STEPS = {'T0': [], 'T1': [], 'T2': ['s1', 's2'], 'T3': ['d'], 'T4': ['d', 's1'],
              'T5': ['d', 'e']}
 TPL_FLOW = {'s1': [], 's2': [('s1',)]}     # 'd', 'e' have no flow entry: legacy derivers
@@ -60,7 +71,8 @@ def template(tpl, x0, parallel=False):
         scfg = {'sname': s, 'up': UPSTREAM.get((tpl, s))}
         if parallel:
             scfg['_parallel'] = True
-        steps[s] = CntStep(scfg)
+        # (the deriver of T3 is written the legacy way)
+        steps[s] = LegacyCnt(scfg) if (tpl == 'T3' and s == 'd') else CntStep(scfg)
         topo[s] = {'c': ('c',)}
         if s in TPL_FLOW:
             flow[s] = list(TPL_FLOW[s])
